@@ -4,6 +4,7 @@ import (
 	"context"
 	"encoding/json"
 	"fmt"
+	"strings"
 	"testing"
 
 	"github.com/coder/websocket"
@@ -51,6 +52,12 @@ func TestC01Gate(t *testing.T) {
 				e.Tags = append(e.Tags, tag)
 			}
 			e.Content = gen.UnicodeString(24).Draw(t, lab+"content")
+			if rapid.IntRange(0, 5).Draw(t, lab+"long?") == 0 {
+				// frames of several kilobytes whose multi-byte characters / escapes fall on every
+				// alignment to a 4096-byte block
+				unit := rapid.SampledFrom([]string{"😀", "\n", "漢", "é", "x", "\"", "😀\n"}).Draw(t, lab+"longunit")
+				e.Content = strings.Repeat("s", rapid.IntRange(0, 7).Draw(t, lab+"longshift")) + strings.Repeat(unit, rapid.IntRange(1100, 5000).Draw(t, lab+"longlen"))
+			}
 			gen.Sign(e, gen.Keys[rapid.IntRange(0, gen.NKeys-1).Draw(t, lab+"key")])
 			x := gen.CloneEvent(e)
 			how := rapid.SampledFrom([]string{"genuine", "genuine", "genuine", "content", "created_at", "kind", "tag", "pubkey", "id-digit", "sig-digit", "pubkey-off-curve", "sig-r-out-of-range"}).Draw(t, lab+"how")
